@@ -10,7 +10,7 @@ trap 'git -C /repo worktree remove --force "$WT" 2>/dev/null; rm -rf "$WT"' EXIT
 if ! git -C "$WT" apply "$P" 2>/dev/null; then echo "PATCH DOES NOT APPLY: $P"; exit 3; fi
 cd /verif
 for c in "$@"; do
-  out=$(VERIF_REPO="$WT" timeout 3000 ./check $c ${TIER:-quick} 2>&1)
+  out=$(VERIF_REPO="$WT" timeout ${TRY_TIMEOUT:-3000} ./check $c ${TIER:-quick} 2>&1)
   rc=$?
   echo "[$c rc=$rc] $(echo "$out" | grep -c '^VIOLATION') violation lines; $(echo "$out" | tail -1)"
   echo "$out" | grep 'what:' | head -3 | cut -c1-300
